@@ -218,6 +218,9 @@ type focusHandler struct {
 
 	// path is the path to the focused widet
 	path []Widget
+
+	// lastFrame is the surface the path was last computed from
+	lastFrame *Surface
 }
 
 func (f *focusHandler) handleEvent(app *App, ev vaxis.Event) error {
@@ -270,14 +273,21 @@ func (f *focusHandler) handleEvent(app *App, ev vaxis.Event) error {
 }
 
 func (f *focusHandler) updatePath(app *App, root Surface) {
-	// Clear the path
-	f.path = []Widget{}
-
-	ok := f.childHasFocus(root)
+	f.lastFrame = &root
+	ok := f.computePath(root)
 	if !ok {
 		// Best effort refocus
 		_ = f.focusWidget(app, f.root)
 	}
+}
+
+// computePath sets the path to the focused widget within root. It returns
+// false if the focused widget is not part of root
+func (f *focusHandler) computePath(root Surface) bool {
+	// Clear the path
+	f.path = []Widget{}
+
+	ok := f.childHasFocus(root)
 
 	if f.root != root.Widget || len(f.path) == 0 {
 		// Make sure that we always add the original root widget as the
@@ -291,6 +301,7 @@ func (f *focusHandler) updatePath(app *App, root Surface) {
 	for i := 0; i < len(f.path)/2; i++ {
 		f.path[i], f.path[len(f.path)-1-i] = f.path[len(f.path)-1-i], f.path[i]
 	}
+	return ok
 }
 
 func (f *focusHandler) childHasFocus(s Surface) bool {
@@ -326,6 +337,11 @@ func (f *focusHandler) focusWidget(app *App, w Widget) error {
 	// newly focused widget changes focus again, we need to set this before
 	// the handleCommand call
 	f.focused = w
+	// The path follows the focus right away, events which arrive before the
+	// next frame are routed to the new widget's ancestors
+	if f.lastFrame != nil {
+		f.computePath(*f.lastFrame)
+	}
 	cmd, err = w.HandleEvent(vaxis.FocusIn{}, TargetPhase)
 	if err != nil {
 		return err
@@ -393,6 +409,7 @@ func (a *App) Run(w Widget) error {
 	mh := mouseHandler{
 		lastFrame: s,
 	}
+	a.fh.updatePath(a, s)
 
 	// This is the main event loop. We first wait for events with an 8ms
 	// timeout. If we have an event, we handle it immediately and process
